@@ -514,63 +514,95 @@ func checkOverflowGuards(p *core.Prog, r *core.Report) {
 	r.Check(okDiv, "C17.R1", "overflow/ProcessRangeRequest.Validate/nonzero-size", "the division by SegmentSize in the guard is only evaluated after SegmentSize == 0 was refused", "a division by SegmentSize is reachable without the zero test", p.Pos(val.Pos()))
 
 	// (b) the boundary following the stop block
-	h := p.Func(pkgPipe, "computeLinearHandoffBlockNum")
-	r.Touch(core.FuncName(h))
-	stopP := h.Params[2]
-	n, bad := 0, 0
-	core.Instrs(h, func(in ssa.Instruction) {
-		bo, ok := in.(*ssa.BinOp)
-		if !ok || bo.Op != token.ADD {
+	h0 := p.Func(pkgPipe, "computeLinearHandoffBlockNum")
+	r.Touch(core.FuncName(h0))
+	// the function itself and the helpers of the package that receive the stop block (the rounding extracted)
+	type target struct {
+		fn   *ssa.Function
+		stop *ssa.Parameter
+	}
+	targets := []target{{h0, h0.Params[2]}}
+	okPropagated := true
+	core.Instrs(h0, func(in ssa.Instruction) {
+		ci, ok := in.(ssa.CallInstruction)
+		if !ok {
 			return
 		}
-		if _, c := bo.X.(*ssa.Const); c {
+		hh := core.StaticFn(ci.Common())
+		if hh == nil || hh.Blocks == nil || hh.Pkg != h0.Pkg || hh.Parent() != nil {
 			return
 		}
-		if _, c := bo.Y.(*ssa.Const); c {
-			return
-		}
-		if !core.OperandSlice(bo)[stopP] {
-			return
-		}
-		n++
-		// post-check: result < stopBlock → error return; every other use of the sum lies behind the not-wrapped edge
-		var wrapped, fine []core.Edge
-		core.Instrs(h, func(x ssa.Instruction) {
-			ifi, ok := x.(*ssa.If)
-			if !ok {
-				return
+		for i, a := range ci.Common().Args {
+			if a == ssa.Value(h0.Params[2]) && i < len(hh.Params) {
+				targets = append(targets, target{hh, hh.Params[i]})
+				r.Touch(core.FuncName(hh))
+				if !core.ErrorTested(in) {
+					okPropagated = false
+				}
 			}
-			isSum := func(v ssa.Value) bool { return core.OperandSlice(v)[bo] && !hasOtherArith(v, bo) }
-			isStop := func(v ssa.Value) bool { return core.SkipConv(v) == ssa.Value(stopP) }
-			onT, onF, ok := core.CondRelation(ifi.Cond, isSum, isStop)
-			if !ok {
-				return
-			}
-			if onT == core.OrdLT {
-				wrapped = append(wrapped, core.Edge{From: ifi.Block(), Idx: 0})
-				fine = append(fine, core.Edge{From: ifi.Block(), Idx: 1})
-			}
-			if onF == core.OrdLT {
-				wrapped = append(wrapped, core.Edge{From: ifi.Block(), Idx: 1})
-				fine = append(fine, core.Edge{From: ifi.Block(), Idx: 0})
-			}
-		})
-		ok2 := len(wrapped) > 0
-		for _, e := range wrapped {
-			b := e.From.Succs[e.Idx]
-			if invalidArgKind(b) == "" || !core.OnlyErrorReturnsFrom(b) {
-				ok2 = false
-			}
-		}
-		// no return of the function is reachable from the sum without passing the wrap test
-		q := core.PathQuery{Fn: h, CutEdge: func(e core.Edge) bool { return containsEdge(fine, e) || containsEdge(wrapped, e) }}
-		if _, reach := q.CanReach(in, func(x ssa.Instruction) bool { _, isRet := x.(*ssa.Return); return isRet }); reach {
-			ok2 = false
-		}
-		if !ok2 {
-			bad++
 		}
 	})
+	n, bad := 0, 0
+	for _, tg := range targets {
+		h, stopP := tg.fn, tg.stop
+		core.Instrs(h, func(in ssa.Instruction) {
+			bo, ok := in.(*ssa.BinOp)
+			if !ok || bo.Op != token.ADD {
+				return
+			}
+			if _, c := bo.X.(*ssa.Const); c {
+				return
+			}
+			if _, c := bo.Y.(*ssa.Const); c {
+				return
+			}
+			if !core.OperandSlice(bo)[stopP] {
+				return
+			}
+			n++
+			// post-check: result < stopBlock → error return; every other use of the sum lies behind the not-wrapped edge
+			var wrapped, fine []core.Edge
+			core.Instrs(h, func(x ssa.Instruction) {
+				ifi, ok := x.(*ssa.If)
+				if !ok {
+					return
+				}
+				isSum := func(v ssa.Value) bool { return core.OperandSlice(v)[bo] && !hasOtherArith(v, bo) }
+				isStop := func(v ssa.Value) bool { return core.SkipConv(v) == ssa.Value(stopP) }
+				onT, onF, ok := core.CondRelation(ifi.Cond, isSum, isStop)
+				if !ok {
+					return
+				}
+				if onT == core.OrdLT {
+					wrapped = append(wrapped, core.Edge{From: ifi.Block(), Idx: 0})
+					fine = append(fine, core.Edge{From: ifi.Block(), Idx: 1})
+				}
+				if onF == core.OrdLT {
+					wrapped = append(wrapped, core.Edge{From: ifi.Block(), Idx: 1})
+					fine = append(fine, core.Edge{From: ifi.Block(), Idx: 0})
+				}
+			})
+			ok2 := len(wrapped) > 0
+			for _, e := range wrapped {
+				b := e.From.Succs[e.Idx]
+				if invalidArgKind(b) == "" || !core.OnlyErrorReturnsFrom(b) {
+					ok2 = false
+				}
+			}
+			// no return of the function is reachable from the sum without passing the wrap test
+			q := core.PathQuery{Fn: h, CutEdge: func(e core.Edge) bool { return containsEdge(fine, e) || containsEdge(wrapped, e) }}
+			if _, reach := q.CanReach(in, func(x ssa.Instruction) bool { _, isRet := x.(*ssa.Return); return isRet }); reach {
+				ok2 = false
+			}
+			if !ok2 {
+				bad++
+			}
+		})
+	}
+	if !okPropagated {
+		bad++
+	}
+	h := h0
 	r.Check(n > 0 && bad == 0, "C17.R1", "overflow/computeLinearHandoffBlockNum", "the segment boundary following the stop block is tested for wrap-around (boundary < stop → invalid argument) before anything is returned", fmt.Sprintf("%d sums derived from the stop block, %d without the wrap test", n, bad), p.Pos(h.Pos()))
 }
 
